@@ -217,6 +217,17 @@ func runC29(c *an.Ctx) {
 			c.Add(locks.Held(r).HasW(ll) && an.Path(r.Call.Value) == "$1", "R2", "RegisterHandler:replay-locked", r, "buffered lines are replayed to the new handler inside the same critical section", "lockset")
 			arg := r.Call.Args[0]
 			p := an.Path(arg)
+			// the two parts written as ranges over sub-slices of the ring: logs[index:] and logs[:index]
+			if strings.HasPrefix(p, "$0.logs[$0.index:][(phi:rangeindex@") && strings.HasSuffix(p, "+c:1)]") {
+				older = r
+				c.Add(an.GuardedBy(rh, r, an.Cmp{L: "$0.logs[$0.index]", Op: "!=", R: `c:""`}), "R2", "RegisterHandler:older-part", r, "when the ring has wrapped the older part index..end is replayed", "loop shape + guard")
+				continue
+			}
+			if strings.HasPrefix(p, "$0.logs[:$0.index][(phi:rangeindex@") && strings.HasSuffix(p, "+c:1)]") {
+				newer = r
+				c.Add(true, "R2", "RegisterHandler:newer-part", r, "the newer part 0..index is replayed", "loop shape")
+				continue
+			}
 			if !strings.HasPrefix(p, "$0.logs[phi@") {
 				c.Add(false, "R2", "RegisterHandler:replay-element", r, "the replayed value is an element of the ring (got "+p+")", "")
 				continue
@@ -257,6 +268,7 @@ func runC29(c *an.Ctx) {
 			for _, f := range necessaryFacts(rh, r) {
 				switch {
 				case strings.HasPrefix(f.L, "phi@") && f.Op == "<" && (f.R == "len($0.logs)" || f.R == "$0.index"):
+				case strings.HasPrefix(f.L, "(phi:rangeindex@") && f.Op == "<" && (f.R == "len($0.logs[$0.index:])" || f.R == "len($0.logs[:$0.index])"):
 				case f.L == "$0.logs[$0.index]" && f.Op == "!=" && f.R == `c:""`:
 				case strings.HasPrefix(f.L, "$0.handlers[$1]"):
 				default:
